@@ -168,6 +168,9 @@ def check_case(case):
         return f'construction raised {type(e).__name__}: {str(e)[:100]}'
     randomised = case['decoder'] in ('SweepMatchDecoder', 'RotatedSweepMatchDecoder')
     syns = [np.asarray(code.measure_syndrome(D.error_from(n, xs, zs))) for (xs, zs) in case['history']]
+    if case.get('syndrome_dtype'):
+        # the same syndromes held in another integer dtype (what `H @ e % 2` on int arrays gives a caller)
+        syns = [s_.astype(case['syndrome_dtype']) for s_ in syns]
     fresh_cache = {}
 
     def fresh(k):
@@ -304,6 +307,8 @@ def oracle_cases(ctx, deep):
                 cases.append({'decoder': dname, 'code': cname, 'size': list(size), 'code_deformation': cd,
                               'direction': list(d), 'noise_deformation': nd, 'p': p, 'kwargs': kw,
                               'history': hist, 'mode': 'sequence'})
+                if size == sizes[0] and cd is None:
+                    cases.append(dict(cases[-1], syndrome_dtype='int64'))
     if deep:
         cases += prefix_collision_cases(rng)
     return cases
